@@ -325,4 +325,5 @@ func main() {
 	writeIfChanged(filepath.Join(out, "PsiWriteGen.v"), p.emitPsiWriteGen())
 	writeIfChanged(filepath.Join(out, "RestGen.v"), p.emitRestGen())
 	writeIfChanged(filepath.Join(out, "RestData.v"), p.emitRestData())
+	writeIfChanged(filepath.Join(out, "RestDesc.v"), p.emitRestDesc())
 }
